@@ -145,6 +145,14 @@ fn main() {
         Some("det-one") => {
             families::determinism::det_one(args[2].parse().unwrap(), args[3].parse().unwrap());
         }
+        Some("list") => {
+            // list <family> [tier]: index and case of every case
+            let fam = families::by_name(&args[2]).expect("family");
+            let tier = Tier::parse(args.get(3).map(|s| s.as_str()).unwrap_or("thorough"));
+            for (i, c) in fam.cases(tier).enumerate() {
+                println!("{} {}", i, c);
+            }
+        }
         Some("show") => {
             // show <family> <index>: print the case and its source
             let fam = families::by_name(&args[2]).expect("family");
